@@ -1102,6 +1102,8 @@ def C05(ctx):
     last_by_type = {}    # type -> (stamp, payload) of the last re-offered occurrence
     exact = set()        # occurrences whose moment of deferral is known exactly
     multi_deferred = set()   # occurrences pending while states of >= 2 regions deferred their type
+    toks_of = {}             # payload -> behaviour tokens seen for it
+    done_op = {}             # payload -> operation in which it was dispatched
     waited = {}
 
     # conditional deferral (backmp11 is_event_deferred): (state, type) -> atom of the predicate; the predicate's verdict for an
@@ -1170,11 +1172,17 @@ def C05(ctx):
                 continue
             if p[0] in ('g', 'a', 'en', 'ex', 'nt', 'xc'):
                 pl = payload_of(p)
-                if pl is not None and pl != cur:
-                    cur = pl
-                    if pl in done:
+                if pl is not None:
+                    # one dispatch shows every behaviour token of an occurrence at most once (its block may be interrupted: a
+                    # submachine that handled it processes its own pending occurrences before the enclosing machine goes on
+                    # with its next region), a second dispatch repeats tokens or happens in a later operation
+                    if t in toks_of.setdefault(pl, set()) or (pl in done and done_op.get(pl) != i):
                         sig = 'back_event_stored_once_per_deferring_region' if (dialect_of(ctx.cfg) == 'back' and pl in multi_deferred) else None
                         fail('C05', 'occurrence #%d (%s) is dispatched a second time' % (pl, etype.get(pl)), ctx, i, sig=sig)
+                    toks_of[pl].add(t)
+                if pl is not None and pl != cur and pl not in done:
+                    cur = pl
+                    done_op[pl] = i
                     if pl not in etype:
                         fail('C05', 'behaviour saw an occurrence #%d that was never submitted' % pl, ctx, i)
                     tn = etype[pl]
